@@ -501,6 +501,8 @@ class World:
             self.server.enqueue(bid, {"cmd": cmd, "data": unhx(data), "op": op.get("id")})
             st.setdefault("queued", []).append((cmd, unhx(data)))
             self.res.log.log("operator_task", kk, cmd)
+        elif "callbacks" in op:
+            self._raw_post(op)
         elif op.get("restart"):
             self.res.faults["restart"] += 1
             a = st["actor"]
@@ -513,6 +515,35 @@ class World:
             self.res.log.log("restart", kk, was_alive)
             st["dispatch_epoch"] = st.get("dispatch_epoch", 0) + 1
             self.start_client(kk, spec, self.kernel.now + op.get("delay_us", 1000), st["incarnations"] + 1)
+
+    def _raw_post(self, op):
+        """Raw beacon: a POST carrying SEVERAL framed callbacks (what real beacons do, the library client never does),
+        built with the library's primitives for an existing session and put on the wire by the independent serialiser."""
+        from dissect.cobaltstrike.c2 import ClientC2Data, encrypt_packet
+        from dissect.cobaltstrike.c_c2 import BeaconCallback, CallbackPacket
+        kk = op["client"]
+        st = self.clients.get(kk)
+        if st is None or not st["keys"] or not hasattr(st["obj"], "c2http") or st["actor"].done:
+            return
+        c = st["obj"]
+        cbs = [(cb, unhx(data)) for cb, data in op["callbacks"]]
+        frames = b""
+        for i, (cb, data) in enumerate(cbs):
+            pkt = CallbackPacket(counter=9000 + i, size=len(data), callback=BeaconCallback(cb), data=data)
+            frames += encrypt_packet(pkt.dumps(), **c.c2http.beacon_keys._asdict()).dumps()
+        req = c.c2http.transform_submit.transform(ClientC2Data(id=str(c.beacon_id).encode(), output=frames),
+                                                  request=c._initial_post_request())
+        wire = rc.serialize_request(req.method, req.uri, list(req.params.items()), list(req.headers.items()), req.body)
+        outgoing = ("post", cbs, c.beacon_id)
+        epoch = self.epoch0 + self.kernel.now // 1_000_000
+        ridx = len(self.tap)
+        rw, inf = self.server.handle(wire, self.kernel.now, epoch)
+        self.res.log.log("raw_post", kk, len(cbs), inf.get("error"))
+        self.tap.append(TapRecord(wire, "post_req", kk, self._truth("post", outgoing, st), False))
+        self._peer_oracles(kk, st, inf.get("kind"), inf, outgoing, False, wire)
+        self.tap.append(TapRecord(rw, "post_resp" if not inf.get("error") else "err_resp", kk, [], False, ridx))
+        st.setdefault("delivered_cbs", []).extend(cbs)
+        self.res.probes["multi_frame_post"] += 1
 
     def _bid_of(self, kk):
         spec = next(s for s in self.plan["clients"] if s["k"] == kk)
